@@ -103,6 +103,37 @@ class C03(e1.E1Check):
             "required error.")
     assumptions = ["bridge+mirror marshalling", "reference reducer semantics in model/refops.py"]
 
+    def extra_states(self, tier):
+        """Rows of pairwise different lengths with distinct leaf values (increasing and decreasing), every position of a
+        single None and no None at all under an option type: the states in which a non-innermost reduction has to
+        carry the gaps of the shorter rows along (nextshifts)."""
+        import itertools
+        import encs
+        groups = []
+        lens = [(1, 2, 3), (0, 1, 2), (0, 2, 3), (1, 3)] if tier == "quick" else [(1, 2, 3), (0, 1, 2), (0, 2, 3), (0, 1, 3), (1, 3), (2, 3), (1, 2, 4)]
+        for leafT, optional in ((I, False), (I, True), (F, True)):
+            T = var(opt(leafT)) if optional else var(leafT)
+            group = []
+            for pattern in lens:
+                for perm in sorted(set(itertools.permutations(pattern))):
+                    n = sum(perm)
+                    for direction in (1, -1):
+                        labels = list(range(1, n + 1))[::direction]
+                        if leafT is F:
+                            labels = [x + 0.5 for x in labels]
+                        holes = [None] + (list(range(n)) if optional else [])
+                        for hole in holes:
+                            flat = [None if i == hole else x for i, x in enumerate(labels)]
+                            tvs, k = [], 0
+                            for r in perm:
+                                tvs.append(flat[k:k + r])
+                                k += r
+                            group.append((T, tvs, list(encs.encodings(T, tvs, 1, tier != "quick"))))
+            # split into shards of about 40 values
+            for k in range(0, len(group), 40):
+                groups.append(group[k:k + 40])
+        return groups
+
     def alphabet(self, T, tvs, tier):
         lo, hi = refops.array_depth(T)
         ops = []
